@@ -193,7 +193,7 @@ def facts(p: dict[str, Any]) -> set[str]:
     return out
 
 
-FAULT_PLANS = ("none", "none", "lose-0005", "lose-000C-actuators", "lose-000C-sensors", "lose-000C-dhw", "lose-000C-app", "lose-random", "lose-all-first-hour")
+FAULT_PLANS = ("lose-0005-class-masks", "lose-0005", "lose-000C-actuators", "lose-000C-sensors", "lose-000C-dhw", "lose-000C-app", "lose-random", "lose-all-first-hour")
 
 
 class Faults:
@@ -216,6 +216,8 @@ class Faults:
             hit = False
         elif self.plan == "lose-0005":
             hit = code == "0005"
+        elif self.plan == "lose-0005-class-masks":  # the zones become known (sensor mask) before their classes do
+            hit = code == "0005" and pay[2:4] in ("08", "09", "0A", "0B", "11")
         elif self.plan == "lose-000C-actuators":
             hit = code == "000C" and pay[2:4] in ("00", "08", "0A", "0B", "11")
         elif self.plan == "lose-000C-sensors":
@@ -235,7 +237,7 @@ class Faults:
 async def scenario(loop: vloop.VirtualLoop, ctx, trial: int) -> None:
     rng = random.Random(f"C12/{ctx.seed}/{trial}")
     cfg = gen_config(rng)
-    plan = FAULT_PLANS[trial % len(FAULT_PLANS)] if trial % 2 else "none"
+    plan = FAULT_PLANS[(trial // 2) % len(FAULT_PLANS)] if trial % 2 else "none"
     if ctx.quick and plan != "none" and trial % 4 != 1:
         plan = "none"  # quick tier: one faulted (26 virtual hours) scenario in four
     faults = Faults(loop, rng, plan)
